@@ -5,7 +5,8 @@ Four layers, each a small total function:
 1. `resolveEndpoint` — the URL forms `_handle_endpoint_event` accepts.
 2. the incremental event-stream parser of `_process_sse_stream`
    (`buffer += chunk; while "\n" in buffer: line, buffer = buffer.split("\n", 1)`; per line:
-   `event: ` / `data: ` prefixes, dispatch on the data line) — `feed`, `runChunks`.
+   comment / `field:value` with an optional space after the colon, `data` lines collected and
+   joined with LF, dispatch at the blank line that ends the event) — `feed`, `runChunks`.
 3. `enter` — the readiness wait of `__aenter__` over a timed establishment trace (repaired
    behaviour: yield only if an endpoint was announced, else raise; never later than the timeout).
 4. the pending-future protocol of `_send_message_via_http` / `_handle_message_event` as a
@@ -57,6 +58,8 @@ def hasSub (pat : Str) : Str → Bool
 def sHttp : Str := ['h','t','t','p']
 def sMessages : Str := ['/','m','e','s','s','a','g','e','s','/']
 def sMessagesQ : Str := ['/','m','e','s','s','a','g','e','s','/','?']
+def sEvent : Str := ['e','v','e','n','t']
+def sData : Str := ['d','a','t','a']
 def sEventPfx : Str := ['e','v','e','n','t',':',' ']
 def sDataPfx : Str := ['d','a','t','a',':',' ']
 def sEndpoint : Str := ['e','n','d','p','o','i','n','t']
@@ -85,31 +88,70 @@ inductive Act where
   | message (data : Str)
   deriving DecidableEq, Repr
 
-/-- parser state between lines: `current_event`, and whether `self._message_url` is set -/
+/-- the event under construction: `current_event` and `event_data` -/
+structure Acc where
+  ty : Option Str
+  data : List Str
+  deriving DecidableEq, Repr
+
+def Acc.empty : Acc := { ty := none, data := [] }
+
+/-- parser state between lines: the event under construction (`none` = nothing collected since
+the last blank line), and whether `self._message_url` is set -/
 structure LSt where
-  cur : Option Str
+  cur : Option Acc
   haveUrl : Bool
   deriving DecidableEq, Repr
 
-/-- one complete line (without its LF) -/
+/-- `line.partition(":")`: text before the first colon, text after it (no colon: the whole line
+is the field name) -/
+def partitionColon : Str → Str × Str
+  | [] => ([], [])
+  | c :: cs => if c = ':' then ([], cs) else let r := partitionColon cs; (c :: r.1, r.2)
+
+/-- the optional single space after the colon -/
+def dropOneSpace : Str → Str
+  | ' ' :: cs => cs
+  | cs => cs
+
+/-- `"\n".join(lines)` -/
+def joinNL : List Str → Str
+  | [] => []
+  | [l] => l
+  | l :: ls => l ++ '\n' :: joinNL ls
+
+/-- `_dispatch_sse_event` at the blank line that ends an event (nothing is dispatched for an
+event without data) -/
+def dispatch (st : LSt) : LSt × List Act :=
+  match st.cur with
+  | none => (st, [])
+  | some a =>
+    let st' : LSt := { st with cur := none }
+    if a.data = [] then (st', [])
+    else
+      let d := strip (joinNL a.data)
+      if a.ty = some sEndpoint then
+        ({ st' with haveUrl := decide (strip d ≠ []) }, [.endpoint d])
+      else if a.ty = some sMessage then (st', [.message d])
+      else if a.ty = some sKeepalive then (st', [])
+      else if !st.haveUrl && (hasSub sMessages d || hasSub sMcp d) then
+        ({ st' with haveUrl := decide (strip d ≠ []) }, [.endpoint d])
+      else if startsWith ['{'] d && hasSub sJsonrpc d then (st', [.message d])
+      else (st', [])
+
+/-- one complete line (without its LF): blank = end of event, `:…` = comment, else
+`field:value` with an optional single space after the colon -/
 def stepLine (st : LSt) (raw : Str) : LSt × List Act :=
   let line := rstripCR raw
-  if line = [] then ({ st with cur := none }, [])
-  else match stripPrefix sEventPfx line with
-    | some r => ({ st with cur := some (strip r) }, [])
-    | none =>
-      match stripPrefix sDataPfx line with
-      | none => (st, [])
-      | some r =>
-        let d := strip r
-        if st.cur = some sEndpoint then
-          ({ st with haveUrl := decide (strip d ≠ []) }, [.endpoint d])
-        else if st.cur = some sMessage then (st, [.message d])
-        else if st.cur = some sKeepalive then (st, [])
-        else if !st.haveUrl && (hasSub sMessages d || hasSub sMcp d) then
-          ({ st with haveUrl := decide (strip d ≠ []) }, [.endpoint d])
-        else if startsWith ['{'] d && hasSub sJsonrpc d then (st, [.message d])
-        else (st, [])
+  if line = [] then dispatch st
+  else if line.head? = some ':' then (st, [])
+  else
+    let p := partitionColon line
+    let v := dropOneSpace p.2
+    let a := st.cur.getD Acc.empty
+    if p.1 = sEvent then ({ st with cur := some { a with ty := some (strip v) } }, [])
+    else if p.1 = sData then ({ st with cur := some { a with data := a.data ++ [v] } }, [])
+    else (st, [])
 
 def stepLines (st : LSt) : List Str → LSt × List Act
   | [] => (st, [])
@@ -200,6 +242,54 @@ def Ev.Clean : Ev → Prop
   | .endpoint d => CleanText d
   | .message d => CleanText d
   | .keepalive d => CleanText d
+  | .comment c => '\n' ∉ c
+
+/-! ### every conformant rendering: space after the colon or not, several data lines -/
+
+structure Style where
+  crlf : Bool
+  /-- `field: value` (true) or `field:value` -/
+  space : Bool
+  deriving DecidableEq, Repr
+
+def Style.cr (s : Style) : Str := if s.crlf then ['\r'] else []
+
+def fieldLine (name v : Str) (s : Style) : Str := name ++ ':' :: (if s.space then ' ' :: v else v) ++ s.cr
+
+inductive EvX where
+  | endpoint (d : Str)
+  /-- a message whose data is spread over any number of `data` lines -/
+  | message (ds : List Str)
+  | keepalive (d : Str)
+  | comment (c : Str)
+  deriving DecidableEq, Repr
+
+def evLinesX (e : EvX) (s : Style) : List Str :=
+  match e with
+  | .endpoint d => [fieldLine sEvent sEndpoint s, fieldLine sData d s, s.cr]
+  | .message ds => fieldLine sEvent sMessage s :: (ds.map (fun d => fieldLine sData d s) ++ [s.cr])
+  | .keepalive d => [fieldLine sEvent sKeepalive s, fieldLine sData d s, s.cr]
+  | .comment c => [':' :: c ++ s.cr]
+
+def renderTextX (evs : List (EvX × Style)) : Str := joinLF (evs.flatMap (fun p => evLinesX p.1 p.2))
+
+/-- the action the transport must see: the data lines joined with LF, stripped -/
+def EvX.act : EvX → Option Act
+  | .endpoint d => some (.endpoint (strip d))
+  | .message ds => if ds = [] then none else some (.message (strip (joinNL ds)))
+  | .keepalive _ => none
+  | .comment _ => none
+
+/-- a value that can be written on one line in this style: no line feed, no carriage return at
+its end, and no leading space when the optional space is left out -/
+def OkLine (v : Str) (s : Style) : Prop :=
+  '\n' ∉ v ∧ (∀ c, v.getLast? = some c → c ≠ '\r') ∧ (s.space = true ∨ v.head? ≠ some ' ')
+
+def EvX.Ok (e : EvX) (s : Style) : Prop :=
+  match e with
+  | .endpoint d => OkLine d s
+  | .message ds => ∀ d ∈ ds, OkLine d s
+  | .keepalive d => OkLine d s
   | .comment c => '\n' ∉ c
 
 /-! ## 3. establishment -/
